@@ -21,9 +21,27 @@ if ! (cd "$ROOT/mc" && cp /repo/go.sum go.sum 2>/dev/null; go build -tags verif 
 fi
 rm -f "$ROOT/.scratch/build.$$.log"
 # generous hard limits; the checks stop by themselves at their soft deadline (exit 0, exhaustive:false)
-ulimit -v 41943040 2>/dev/null || true
+if [ "$TIER" = "thorough" ]; then ulimit -v 41943040 2>/dev/null || true; else ulimit -v 12582912 2>/dev/null || true; fi
+LOG="$ROOT/.scratch/run.$$.log"
 if [ "$TIER" = "--replay" ]; then
-  "$BIN" "$ID" --replay "${2:?replay file}"
+  "$BIN" "$ID" --replay "${2:?replay file}" 2>&1 | tee "$LOG"; rc=${PIPESTATUS[0]}
 else
-  "$BIN" "$ID" "$TIER"
+  "$BIN" "$ID" "$TIER" 2>&1 | tee "$LOG"; rc=${PIPESTATUS[0]}
 fi
+# A fatal Go runtime error (stack overflow, out of memory, concurrent map access) cannot be recovered
+# inside the process. If the goroutine that died was executing biostuff code (a /repo/ frame in the first
+# stack printed), the library brought the process down on an input of the bounded space: that is a
+# violation, and the crash log is its replay artefact. Any other crash is a harness failure (exit 2).
+if [ $rc -ne 0 ] && [ $rc -ne 1 ] && grep -q '^fatal error:' "$LOG"; then
+  first=$(awk '/^goroutine [0-9]+ /{n++} n==1{print} n>=2{exit}' "$LOG")
+  if echo "$first" | grep -q '/repo/'; then
+    RDIR="${VERIF_EVIDENCE_DIR:+$VERIF_EVIDENCE_DIR/replays}"; RDIR="${RDIR:-$ROOT/replays}"; mkdir -p "$RDIR"
+    CR="$RDIR/$ID-crash-$(date +%s).log"; cp "$LOG" "$CR"
+    echo "VIOLATION property=$ID replay=$CR"
+    echo "  the checker process died with a fatal runtime error inside biostuff code: $(grep -m1 '^fatal error:' "$LOG")"
+    echo "  $(echo "$first" | grep -m1 '/repo/' | sed 's/^[ \t]*//')"
+    rc=1
+  fi
+fi
+rm -f "$LOG"
+exit $rc
